@@ -21,8 +21,9 @@ Rec == ndJsonDeserialize(IOEnv.TRACE)
 
 VARIABLES l, run, conf, acc, inflight, naccepted, nconfirmed, segs, man, gcBefore, overlap, fActive, cActive, accTombs,
           segc,   \* segment id -> its content as key -> RV (merge of the segment's deltas per key), when it was logged
-          cin     \* ids of the segments the compaction in progress has read
-tvars == <<l, run, conf, acc, inflight, naccepted, nconfirmed, segs, man, gcBefore, overlap, fActive, cActive, accTombs, segc, cin>>
+          cin,    \* ids of the segments the compaction in progress has read
+          gcOut   \* keys whose expired tombstone a compaction dropped while a manifest segment it did not read held the key
+tvars == <<l, run, conf, acc, inflight, naccepted, nconfirmed, segs, man, gcBefore, overlap, fActive, cActive, accTombs, segc, cin, gcOut>>
 
 Dev(d) == d \in AsBuilt
 Verdict(what) == PrintT(<<"VERDICT", ToJson([run |-> run, l |-> l, v |-> "bad", what |-> what])>>)
@@ -36,7 +37,7 @@ MergeAll(f, g) == [k \in DOMAIN f \cup DOMAIN g |->
 
 TraceInit == /\ l = 1 /\ run = 0 /\ conf = NoFun /\ acc = NoFun /\ inflight = NoFun
              /\ naccepted = 0 /\ nconfirmed = 0 /\ segs = NoFun /\ man = {} /\ gcBefore = 0
-             /\ overlap = FALSE /\ fActive = FALSE /\ cActive = FALSE /\ accTombs = NoFun /\ segc = NoFun /\ cin = {}
+             /\ overlap = FALSE /\ fActive = FALSE /\ cActive = FALSE /\ accTombs = NoFun /\ segc = NoFun /\ cin = {} /\ gcOut = {}
 
 Keep(vs) == UNCHANGED vs
 
@@ -51,7 +52,8 @@ CrashOk(ev) ==
   /\ \A k \in DOMAIN conf :
        IF k \in DOMAIN R
        THEN \/ Absorbs(R[k], conf[k])
-            \/ (Dev("gc_ignores_outside") /\ GcLegal(k))          \* an older value resurfaced after GC
+            \/ (Dev("gc_ignores_outside") /\ GcLegal(k) /\ k \in gcOut)   \* an older value resurfaced after GC: only where a compaction
+                                                                          \* dropped the tombstone although a segment outside it held the key
        ELSE GcLegal(k)
   /\ \A k \in DOMAIN R : k \in DOMAIN acc /\ Absorbs(acc[k], R[k])
 (* content of a segment: key -> merge of its deltas for the key *)
@@ -74,7 +76,7 @@ Step(ev) ==
   \/ /\ ev.a = "reset"
      /\ run' = ev.run /\ conf' = NoFun /\ acc' = NoFun /\ inflight' = NoFun /\ naccepted' = 0 /\ nconfirmed' = 0
      /\ segs' = NoFun /\ man' = {} /\ gcBefore' = 0 /\ overlap' = FALSE /\ fActive' = FALSE /\ cActive' = FALSE
-     /\ accTombs' = NoFun /\ segc' = NoFun /\ cin' = {}
+     /\ accTombs' = NoFun /\ segc' = NoFun /\ cin' = {} /\ gcOut' = {}
   \/ /\ ev.a = "push"
      /\ IF ev.ok THEN /\ acc' = MergeInto(acc, ev.k, JRv(ev.rv))
                       /\ inflight' = MergeInto(inflight, ev.k, JRv(ev.rv))
@@ -83,24 +85,24 @@ Step(ev) ==
                                       THEN Upd(accTombs, ev.k, (IF ev.k \in DOMAIN accTombs THEN accTombs[ev.k] ELSE {}) \cup {JRv(ev.rv).ts})
                                       ELSE accTombs
         ELSE UNCHANGED <<acc, inflight, naccepted, accTombs>>
-     /\ Keep(<<run, conf, nconfirmed, segs, man, gcBefore, overlap, fActive, cActive, segc, cin>>)
+     /\ Keep(<<run, conf, nconfirmed, segs, man, gcBefore, overlap, fActive, cActive, segc, cin, gcOut>>)
   \/ /\ ev.a = "flush_begin"
      /\ fActive' = TRUE /\ overlap' = (overlap \/ cActive)
-     /\ Keep(<<run, conf, acc, inflight, naccepted, nconfirmed, segs, man, gcBefore, cActive, accTombs, segc, cin>>)
+     /\ Keep(<<run, conf, acc, inflight, naccepted, nconfirmed, segs, man, gcBefore, cActive, accTombs, segc, cin, gcOut>>)
   \/ /\ ev.a = "flush_end"
      /\ fActive' = FALSE
      /\ IF ev.ok THEN /\ conf' = MergeAll(conf, inflight) /\ inflight' = NoFun /\ nconfirmed' = naccepted
                       /\ (ev.pending # 0 => Verdict("flush ok but deltas still pending"))
         ELSE /\ UNCHANGED <<conf, inflight, nconfirmed>>
              /\ (ev.pending # naccepted - nconfirmed => Verdict("failed flush silently dropped accepted deltas"))
-     /\ Keep(<<run, acc, naccepted, segs, man, gcBefore, overlap, cActive, accTombs, segc, cin>>)
+     /\ Keep(<<run, acc, naccepted, segs, man, gcBefore, overlap, cActive, accTombs, segc, cin, gcOut>>)
   \/ /\ ev.a = "compact_begin"
      /\ cActive' = TRUE /\ overlap' = (overlap \/ fActive)
      /\ gcBefore' = IF ev.gc_before > gcBefore THEN ev.gc_before ELSE gcBefore
-     /\ cin' = {} /\ Keep(<<run, conf, acc, inflight, naccepted, nconfirmed, segs, man, fActive, accTombs, segc>>)
+     /\ cin' = {} /\ Keep(<<run, conf, acc, inflight, naccepted, nconfirmed, segs, man, fActive, accTombs, segc, gcOut>>)
   \/ /\ ev.a = "compact_end"
      /\ cActive' = FALSE
-     /\ Keep(<<run, conf, acc, inflight, naccepted, nconfirmed, segs, man, gcBefore, overlap, fActive, accTombs, segc, cin>>)
+     /\ Keep(<<run, conf, acc, inflight, naccepted, nconfirmed, segs, man, gcBefore, overlap, fActive, accTombs, segc, cin, gcOut>>)
   \/ /\ ev.a = "call"
      /\ segs' = IF ev.op = "put" /\ ev.kind = "seg" /\ ev.res # "fail"
                   THEN Upd(segs, ev.id, IF ev.res = "ok" THEN "ok" ELSE "partial")
@@ -112,6 +114,10 @@ Step(ev) ==
      /\ cin' = IF ev.who = "C" /\ ev.op = "get" /\ ev.kind = "seg" /\ ev.res = "ok" THEN cin \cup {ev.id} ELSE cin
      /\ (ev.who = "C" /\ ev.op = "put" /\ ev.kind = "seg" /\ ev.res = "ok" /\ "deltas" \in DOMAIN ev /\ cin \subseteq DOMAIN segc /\ ~CompactOutputOk(SegContent(ev.deltas))
            => Verdict("the segment written by a compaction is not the merge of the segments it read (beyond dropping expired tombstones)"))
+     /\ gcOut' = IF ev.who = "C" /\ ev.op = "put" /\ ev.kind = "seg" /\ ev.res = "ok" /\ "deltas" \in DOMAIN ev /\ cin \subseteq DOMAIN segc
+                 THEN gcOut \cup {k \in DOMAIN MergeSegs(cin, NoFun) \ DOMAIN SegContent(ev.deltas) :
+                                   \E i \in (man \ cin) \cap DOMAIN segc : k \in DOMAIN segc[i]}
+                 ELSE gcOut
      /\ Keep(<<run, conf, acc, inflight, naccepted, nconfirmed, gcBefore, overlap, fActive, cActive, accTombs>>)
   \/ /\ ev.a = "crashcheck"
      /\ IF Tolerated THEN TRUE
@@ -119,14 +125,14 @@ Step(ev) ==
         ELSE IF ~ManifestSound THEN Verdict("manifest references a missing or partial object")
         ELSE IF ~CrashOk(ev) THEN Verdict("recovered state loses confirmed data or invents data")
         ELSE TRUE
-     /\ Keep(<<run, conf, acc, inflight, naccepted, nconfirmed, segs, man, gcBefore, overlap, fActive, cActive, accTombs, segc, cin>>)
+     /\ Keep(<<run, conf, acc, inflight, naccepted, nconfirmed, segs, man, gcBefore, overlap, fActive, cActive, accTombs, segc, cin, gcOut>>)
   \/ /\ ev.a = "panic"
      /\ Verdict("panic in code under test")
-     /\ Keep(<<run, conf, acc, inflight, naccepted, nconfirmed, segs, man, gcBefore, overlap, fActive, cActive, accTombs, segc, cin>>)
+     /\ Keep(<<run, conf, acc, inflight, naccepted, nconfirmed, segs, man, gcBefore, overlap, fActive, cActive, accTombs, segc, cin, gcOut>>)
 
 TraceNext ==
   \/ l <= Len(Rec) /\ Step(Rec[l]) /\ l' = l + 1
   \/ l = Len(Rec) + 1 /\ PrintT(<<"VALIDATED", Len(Rec)>>) /\ l' = l + 1
-     /\ Keep(<<run, conf, acc, inflight, naccepted, nconfirmed, segs, man, gcBefore, overlap, fActive, cActive, accTombs, segc, cin>>)
+     /\ Keep(<<run, conf, acc, inflight, naccepted, nconfirmed, segs, man, gcBefore, overlap, fActive, cActive, accTombs, segc, cin, gcOut>>)
 TraceSpec == TraceInit /\ [][TraceNext]_tvars
 =============================================================================
